@@ -883,3 +883,39 @@ val named_calls : nout -> wcall list -> (fout list * fout) * outcome list
 val lost : fout -> bool
 
 val enc_rotate_fd : fout -> n list -> n -> (fout * n list) * outcome
+
+type minput =
+| MBad of n
+| MFile of n * val0 * rblock list
+
+val oval_eqb : val0 option -> val0 option -> bool
+
+val version_of : val0 -> (val0 option * val0 option) * val0 option
+
+val same_version : val0 -> val0 -> bool
+
+type pass1 = { p_pre : val0 option; p_params : val0 list; p_off : (n * n) list }
+
+val p1_step : pass1 -> minput -> pass1
+
+val run_pass1 : minput list -> pass1
+
+val lookup_off : (n * n) list -> n -> n option
+
+val default_preamble : val0
+
+val merged_preamble : pass1 -> val0
+
+val remap : n -> rblock -> blk
+
+val p2_step : (n * n) list -> exporter -> minput -> exporter
+
+val merge_run : minput list -> exporter
+
+val merge_bytes : minput list -> n list
+
+val count_triple : rblock -> (n * n) * n
+
+val itemcount_blocks : rblock list -> ((n * n) * n) list
+
+val itemcount_total : rblock list -> (n * n) * n
